@@ -6,6 +6,9 @@ Inductive btype := Tree | Data.
 Definition btype_eqb (a b : btype) : bool :=
   match a, b with Tree, Tree | Data, Data => true | _, _ => false end.
 
+(* IndexBlob *)
+Record blob := mkBlob { b_id : id; b_tpe : btype; b_len : N; b_comp : bool (* uncompressed_length.is_some() *) }.
+
 (* PackToDo (prune.rs) *)
 Inductive todo := Undecided | Keep | Repack | MarkDelete | KeepMarked | KeepMarkedAndCorrect | Recover | Delete.
 Definition todo_eqb (a b : todo) : bool :=
